@@ -320,11 +320,19 @@ pub fn iso2022jp_outside_ascii(bytes: &[u8]) -> bool {
 }
 
 pub fn query_for_enc(e: &Encoder, form16: bool, repl: bool, n: usize) -> Option<usize> {
-    match (form16, repl) {
+    match guard(|| match (form16, repl) {
         (false, false) => e.max_buffer_length_from_utf8_without_replacement(n),
         (false, true) => e.max_buffer_length_from_utf8_if_no_unmappables(n),
         (true, false) => e.max_buffer_length_from_utf16_without_replacement(n),
         (true, true) => e.max_buffer_length_from_utf16_if_no_unmappables(n),
+    }) {
+        Ok(v) => v,
+        Err(_) => {
+            let p = take_panic();
+            defer_viol("C06", "panic-in-contract", format!("max_buffer_length_from_*({}) panicked: {}", n, p));
+            defer_viol("C07", "query-panicked", format!("max_buffer_length_from_*({}) panicked: {}", n, p));
+            None
+        }
     }
 }
 
@@ -341,7 +349,13 @@ fn chunk_has_unmappable(enc: &'static Encoding, chunk: &[char]) -> bool {
         if guard > s.len() + 8 {
             return false;
         }
-        let (r, rd, _wr) = e.encode_from_utf8_without_replacement(&s[tr..], &mut dst, true);
+        let (r, rd, _wr) = match crate::sink::guard(|| e.encode_from_utf8_without_replacement(&s[tr..], &mut dst, true)) {
+            Ok(t) => t,
+            Err(_) => return false,
+        };
+        if tr + rd > s.len() || !s.is_char_boundary(tr + rd) {
+            return false;
+        }
         tr += rd;
         match r {
             EncoderResult::InputEmpty => return false,
@@ -369,7 +383,16 @@ impl Pipe {
                 viols.push(viol("C12", "downstream-decoder-stuck", "the downstream decoder makes no progress on the encoder's output".into()));
                 break;
             }
-            let (r, rd, wr) = self.dec.decode_to_utf8_without_replacement(&bytes[tr..], &mut dst, last);
+            let (r, rd, wr) = match crate::sink::guard(|| self.dec.decode_to_utf8_without_replacement(&bytes[tr..], &mut dst, last)) {
+                Ok(t) => t,
+                Err(_) => {
+                    viols.push(viol("C12", "downstream-decoder-panicked", format!("the decoder of the same encoding panicked on the encoder's output: {}", take_panic())));
+                    break;
+                }
+            };
+            if tr + rd > bytes.len() || wr > dst.len() {
+                break;
+            }
             tr += rd;
             self.text.push_str(&String::from_utf8_lossy(&dst[..wr]));
             match r {
@@ -447,6 +470,9 @@ pub fn drive_enc(spec: &EncSpec, mode: EncMode, source: &mut dyn OpSource, mut p
         run.events += 1;
         if run.events > max_events {
             break;
+        }
+        for (p, o, d) in take_deferred() {
+            run.viols.push(viol(p, o, d));
         }
         match op {
             Op::Deliver(n) => {
@@ -594,7 +620,19 @@ pub fn drive_enc(spec: &EncSpec, mode: EncMode, source: &mut dyn OpSource, mut p
                             run.viols.push(viol("C04", "surrogate-pair-split-by-read", format!("call {} (cap {}): read {} ends between the halves of a surrogate pair ({})", run.calls.len(), cap, c.read, c.res.name())));
                             ins - 1
                         } else {
-                            run.viols.push(viol("C06", "read-splits-character", format!("call {}: read {} ends inside a UTF-8 sequence", run.calls.len(), c.read)));
+                            let d = format!("call {} (cap {}): read {} ends inside a UTF-8 sequence, so the rest cannot be re-pushed as a &str ({}, written {})", run.calls.len(), cap, c.read, c.res.name(), c.written);
+                            run.viols.push(viol("C06", "read-splits-character", d.clone()));
+                            run.viols.push(viol("C04", "read-splits-utf8-character", d.clone()));
+                            run.viols.push(viol("C08", "read-splits-utf8-character", d));
+                            if pipe.is_some() {
+                                // C12: is what was emitted so far valid on its own?
+                                run.out.extend_from_slice(&c.out);
+                                let mut fresh = spec.enc.output_encoding().new_decoder_without_bom_handling();
+                                let mut dst = vec![0u8; run.out.len() * 4 + 32];
+                                if let Ok((DecoderResult::Malformed(l, a), _, _)) = crate::sink::guard(|| fresh.decode_to_utf8_without_replacement(&run.out, &mut dst, true)) {
+                                    run.viols.push(viol("C12", "prefix-invalid-at-call-boundary", format!("after call {} the {} bytes emitted so far do not decode cleanly: Malformed({}, {})", run.calls.len(), run.out.len(), l, a)));
+                                }
+                            }
                             run.aborted = Some("read inside a character".into());
                             run.ops = source.recorded().to_vec();
                             return run;
@@ -669,7 +707,7 @@ pub fn drive_enc(spec: &EncSpec, mode: EncMode, source: &mut dyn OpSource, mut p
                     if run.out.len() <= 64 {
                         let mut fresh = spec.enc.output_encoding().new_decoder_without_bom_handling();
                         let mut dst = vec![0u8; run.out.len() * 4 + 32];
-                        let (r, _rd, _wr) = fresh.decode_to_utf8_without_replacement(&run.out, &mut dst, true);
+                        let r = guard(|| fresh.decode_to_utf8_without_replacement(&run.out, &mut dst, true)).map(|t| t.0).unwrap_or(DecoderResult::InputEmpty);
                         if let DecoderResult::Malformed(l, a) = r {
                             run.viols.push(viol(
                                 "C12",
@@ -743,6 +781,9 @@ pub fn drive_enc(spec: &EncSpec, mode: EncMode, source: &mut dyn OpSource, mut p
     }
     if let Some(p) = pipe {
         run.pipe_text = p.text;
+    }
+    for (p, o, d) in take_deferred() {
+        run.viols.push(viol(p, o, d));
     }
     run.ops = source.recorded().to_vec();
     run.sig.usize(crate::encs::index_of(spec.enc));
